@@ -54,6 +54,10 @@ def check(ctx, report):
     report.rule('C03.R9', 'SSL 2.0 record: the number of bytes consumed follows the RECORD-LENGTH of the specification for every header value')
     ssl2_parse_header(ctx, report, ctx.model.cls('SslRecord'), RULE='C03.R9')
     report.floor('C03.R9', 1000, 'tabulated SSL 2.0 header values')
+    # SSH identification string: a framing unit that ends with its line feed - the reported length must not depend on what follows
+    # (tabulation of the banner parser over strings followed by further bytes, shared with C07.R6)
+    from .c07 import banner
+    banner(ctx, report, RULE='C03.R11')
     library_framing(ctx, report)
     entry_points(ctx, report)
     ownership(ctx, report)
